@@ -99,7 +99,7 @@ def run(prop, tier, seed, replay=None):
             jb = jobs(tier)
             core.gen_module(w, 'MCR', ['MC_Readers'], {
                 'c_TokKinds': core.Raw('{' + ', '.join(core.tla(x) for x in (kq if tier == 'quick' else kt)) + '}'),
-                'c_CLabels': core.Raw('{' + ', '.join(core.tla(ch(x)) for x in ['S-SB-1', 'X#Y']) + '}'),
+                'c_CLabels': core.Raw('{' + ', '.join(core.tla(ch(x)) for x in ['S-SB-1', 'X#Y', 'EMPTY-HD']) + '}'),
                 'c_CEdges': core.Raw('{' + ', '.join(core.tla(ch(x)) for x in (['HD'] if tier == 'quick' else ['HD', '--'])) + '}'),
                 'c_Jobs': core.Raw('{' + ', '.join(core.tla(j) for j in jb) + '}'),
                 'c_BrTab': cfgc['brtab']})
@@ -133,7 +133,7 @@ def run(prop, tier, seed, replay=None):
                 o = [x for x in ROPTS[fmt] if rnd.random() < 0.3]
                 Ts = []
                 for _ in range(rnd.randint(1, 3)):
-                    T = treeio.random_tree(rnd, nmax=7 if tier == 'quick' else 10, maxcons=5, labels=('S', 'NP-SB', 'VP-1', 'X#Y=2'),
+                    T = treeio.random_tree(rnd, nmax=7 if tier == 'quick' else 10, maxcons=5, labels=('S', 'NP-SB', 'VP-1', 'X#Y=2', 'EMPTY-HD', 'EMPTY'),
                                            edges=('HD', '--', 'OA'),
                                            tags=('NN', '$,', 'VVFIN-X') if fmt in ('brackets', 'discobrackets') else ('NN', '$(', 'VVFIN-X'),
                                            tokedges=('--', 'HD'),
